@@ -865,6 +865,8 @@ class Interp:
         if name == "range":
             if len(args) == 2 and all(isinstance(a, Int) for a in args):
                 return RangeV(args[0], args[1])
+            if 1 <= len(args) <= 3 and all(isinstance(a, Const) and isinstance(a.v, int) for a in args):
+                return ListObj([Const(i) for i in range(*[a.v for a in args])])
             raise Unsupported(node, "range over %r" % (args,))
         if name in ("max", "min") and len(args) == 2 and all(isinstance(a, Int) for a in args):
             a, b = args
@@ -907,8 +909,10 @@ class Interp:
                 return r if r is not None else Const(len(args[0].items))
             if isinstance(args[0], DictObj):
                 return Const(len(args[0].entries))
-        if name == "iter" and len(args) == 1 and isinstance(args[0], (ListObj, TupleV)):
-            return IterV(args[0].items)
+        if name == "iter" and len(args) == 1 and isinstance(args[0], (ListObj, TupleV, DictObj, SetObj, IterV)):
+            if isinstance(args[0], IterV):
+                return args[0]
+            return IterV(_concrete_seq(args[0]))
         if name == "reversed" and len(args) == 1 and isinstance(args[0], (ListObj, TupleV)) and not getattr(args[0], "has_prefix", False):
             return IterV(list(reversed(args[0].items)))
         if name == "next" and len(args) == 1 and isinstance(args[0], IterV):
@@ -1069,10 +1073,10 @@ def _handler_names(h):
     return out
 
 
-def run_all_choices(run_once, max_runs=4096):
+def run_all_choices(run_once, max_runs=4096, seed=None):
     """Drive ``run_once(choices)`` over every combination of lazily discovered choices."""
     results = []
-    stack = [{}]
+    stack = [dict(seed or {})]
     runs = 0
     while stack:
         ch = stack.pop()
